@@ -267,8 +267,8 @@ Fixpoint fixdigits (w : nat) (n : Z) : ustring :=
 
 Fixpoint strip_zeros (s : ustring) : ustring :=
   match s with
-  | 48%N :: s' => strip_zeros s'
-  | _ => s
+  | c :: s' => if (c =? 48)%N then strip_zeros s' else s
+  | [] => []
   end.
 
 (** [format!("{}", n)] for a non-negative integer: no leading zeros, "0" for 0 *)
@@ -383,36 +383,41 @@ Definition parse_exp (s : ustring) : option Z :=
       else None
   end.
 
-(** fpdec_core::str_to_dec: (coefficient, exponent) or None for any error.
-    Quirks reproduced: the sign of "-0" is dropped; after skipping leading
-    zeros "0.", "0e5" are invalid (no digit left) while "0.0" is fine; the
-    overflow test for 39-digit inputs is incomplete, so some 39-digit numbers
-    >= 2^128 are accepted with their value reduced modulo 2^128, e.g.
-    "460282366920938463463374607431768211456" parses as 12 * 10^37. *)
-Definition str_to_dec (s : ustring) : option (Z * Z) :=
-  match s with
+(** str_to_dec, the part that reads the digits (after sign and leading
+    zeros): integral digits, optional '.', fractional digits, then the
+    overflow tests.  Returns (coefficient, number of fractional digits, rest).
+    The overflow test for 39-digit inputs is incomplete: it rejects a wrapped
+    accumulator below 10^38 or above i128::MAX, but a 39-digit number >= 2^128
+    whose residue modulo 2^128 lies in [10^38, 2^127) is ACCEPTED with that
+    residue as its value, e.g. "460282366920938463463374607431768211456"
+    (= 2^128 + 12 * 10^37) parses as 12 * 10^37. *)
+Definition parse_mantissa (s2 : ustring) : option (Z * Z * ustring) :=
+  let '(c1, n_int, s3) := accum_digits s2 0 0 in
+  let '(c2, n_frac, s4) :=
+    match s3 with
+    | d :: s3' => if (d =? ch_dot)%N then accum_digits s3' c1 0 else (c1, 0, s3)
+    | [] => (c1, 0, s3)
+    end in
+  let n_digits := n_int + n_frac in
+  if n_digits =? 0 then None else
+  let coeff := c2 mod 2 ^ 128 in
+  if (n_digits >? 39) || ((n_digits =? 39) && (coeff <? 10 ^ 38))
+     || (coeff >? i128_max) then None
+  else Some (coeff, n_frac, s4).
+
+(** str_to_dec after the optional sign.  Quirks reproduced: a string of
+    zeros only gives (0, 0) whatever the sign; because leading zeros are skipped
+    first, "0." and "0e5" are invalid (no digit left) while "0.0" is fine. *)
+Definition str_to_dec_unsigned (neg : bool) (s1 : ustring) : option (Z * Z) :=
+  match s1 with
   | [] => None
-  | c :: s' =>
-      let '(neg, s1) := if (c =? ch_minus)%N then (true, s')
-                        else if (c =? ch_plus)%N then (false, s')
-                        else (false, s) in
-      match s1 with
-      | [] => None
-      | _ =>
-          match skip_zeros s1 with
-          | [] => Some (0, 0)
-          | s2 =>
-              let '(c1, n_int, s3) := accum_digits s2 0 0 in
-              let '(c2, n_frac, s4) :=
-                match s3 with
-                | d :: s3' => if (d =? ch_dot)%N then accum_digits s3' c1 0 else (c1, 0, s3)
-                | [] => (c1, 0, s3)
-                end in
-              let n_digits := n_int + n_frac in
-              if n_digits =? 0 then None else
-              let coeff := c2 mod 2 ^ 128 in
-              if (n_digits >? 39) || ((n_digits =? 39) && (coeff <? 10 ^ 38))
-                 || (coeff >? i128_max) then None else
+  | _ =>
+      match skip_zeros s1 with
+      | [] => Some (0, 0)
+      | s2 =>
+          match parse_mantissa s2 with
+          | None => None
+          | Some (coeff, n_frac, s4) =>
               match parse_exp s4 with
               | None => None
               | Some e =>
@@ -422,6 +427,16 @@ Definition str_to_dec (s : ustring) : option (Z * Z) :=
               end
           end
       end
+  end.
+
+(** fpdec_core::str_to_dec: (coefficient, exponent) or None for any error *)
+Definition str_to_dec (s : ustring) : option (Z * Z) :=
+  match s with
+  | [] => None
+  | c :: s' =>
+      if (c =? ch_minus)%N then str_to_dec_unsigned true s'
+      else if (c =? ch_plus)%N then str_to_dec_unsigned false s'
+      else str_to_dec_unsigned false s
   end.
 
 (** what both [Decimal::from_str] and the [Dec!] macro do with the result of
